@@ -36,7 +36,7 @@ fn rows_key(rows: &[Vec<Cell>], ordered: bool) -> Vec<String> { let mut v: Vec<S
 fn sqlite_feature(text: &str) -> &'static str {
     let up = text.to_uppercase();
     if up.contains("(VALUES") && up.contains(") AS ") && up.contains("\" (\"") { "values-column-list" }
-    else if up.contains("MD5(") { "md5" } else if up.contains("MEAN(") { "mean" } else if up.contains("VAR(") { "var" } else if up.contains("STD(") { "std" }
+    else if up.contains("CONCAT(") { "concat" } else if up.contains("MD5(") { "md5" } else if up.contains("MEAN(") { "mean" } else if up.contains("VAR(") { "var" } else if up.contains("STD(") { "std" }
     else if up.contains("FIRST(") { "first" } else if up.contains("LAST(") { "last" } else if up.contains("GREATEST(") { "greatest" } else if up.contains("LEAST(") { "least" }
     else if up.contains("FULL JOIN") || up.contains("RIGHT JOIN") { "outer-join" } else { "other" }
 }
